@@ -120,6 +120,8 @@ def main(tier, replay=None):
         else:
             why = {"lost-ack": "an end forgot an acknowledgement it owes: its ack_level differs from the number of segments it "
                                "has taken in since the last ACK it put on the wire (the peer's segments stay unacknowledged for good)",
+                   "stall": "both send windows are exhausted and no ACK is on its way: neither end can ever send again "
+                            "(the session is stuck until the idle time-out)",
                    "window": "the window accounting is broken (in flight + unacknowledged <= outstanding <= window, "
                              "in flight <= free receive window)",
                    "refused-or-misdelivered": "a well-formed segment or step was refused, or a fetched message is not the next submitted one",
@@ -127,7 +129,7 @@ def main(tier, replay=None):
                                  "the window accounting is broken / an acknowledgement was lost")
             what = ("property C18 fails on the implementation (two well-behaved ends back to back): "
                     + ("the implementation panicked" if panicked else why))
-            name = "pair-panic" if panicked else ("pair-lost-ack" if clause == "lost-ack" else "pair-delivery-or-window")
+            name = "pair-panic" if panicked else {"lost-ack": "pair-lost-ack", "stall": "pair-stall"}.get(clause, "pair-delivery-or-window")
         c.violation(name, "\n".join(
             [what, "first offending step: %d" % step] + describe_step(cl, il, step) +
             ["case: " + cl, "implementation output: " + il[:4000],
